@@ -12,15 +12,15 @@ namespace PMQ
 variable [S : PaySet]
 
 /-- what two popped sources have in common: stored as it is, stored after `unifyName`, stored inside a config string, looked up in the
-compare-operator table, looked up (upper-cased) in the table of saving modes of a generated column -/
+compare-operator table, looked up (upper-cased) in the table of saving modes of a generated column / in the compute-operator table -/
 def srcRel (s s' : String) : Prop :=
-  er s = er s' ∧ er (unifyName s) = er (unifyName s') ∧ er2 s = er2 s' ∧ compareOp? s = compareOp? s' ∧ genModeOf (up s) = genModeOf (up s')
+  er s = er s' ∧ er (unifyName s) = er (unifyName s') ∧ er2 s = er2 s' ∧ compareOp? s = compareOp? s' ∧ genModeOf (up s) = genModeOf (up s') ∧ computeOp? (up s) = computeOp? (up s')
 @[simp, grind =] theorem srcRel_def (s s' : String) :
-    srcRel s s' = (er s = er s' ∧ er (unifyName s) = er (unifyName s') ∧ er2 s = er2 s' ∧ compareOp? s = compareOp? s' ∧ genModeOf (up s) = genModeOf (up s')) := rfl
+    srcRel s s' = (er s = er s' ∧ er (unifyName s) = er (unifyName s') ∧ er2 s = er2 s' ∧ compareOp? s = compareOp? s' ∧ genModeOf (up s) = genModeOf (up s') ∧ computeOp? (up s) = computeOp? (up s')) := rfl
 theorem popSrc_qe2 : ∀ x0 y0, QEL x0 y0 → QER srcRel (popSrc x0) (popSrc y0) := by
   intro x0 y0 h
   cases x0 <;> cases y0 <;> simp_all [popSrc]
-  exact ⟨qe_er_src h.1, qe_er_unify h.1, er2_of_er (qe_er_src h.1), qe_compareOp h.1, qe_genMode h.1⟩
+  exact ⟨qe_er_src h.1, qe_er_unify h.1, er2_of_er (qe_er_src h.1), qe_compareOp h.1, qe_genMode h.1, qe_computeOp h.1⟩
 grind_pattern popSrc_qe2 => popSrc x0, popSrc y0
 
 /-- one step of `_parse_config_string`: `acc + "." + source` -/
